@@ -291,6 +291,7 @@ func stdConfigs() map[string]*Cfg {
 		"nc":  {Dir: sp("@/./snaps//")},      // a Dir that is not in cleaned form
 		"gl":  {Dir: sp("@/proj[v2]/sn*ps")}, // glob metacharacters in the path
 		"bad": {Dir: sp("@/blocker/snaps")},  // "blocker" is a regular file: nothing can be created below it
+		"isd": {Dir: sp("@/snaps"), Filename: sp("isdir")}, // snaps/isdir.snap is a DIRECTORY: the directory exists, opening the file fails
 	}
 }
 
